@@ -289,7 +289,7 @@ def run(ctx: common.Ctx):
     jobs = [(fn, d, ctx.seed * 1000 + k) for fn in FUNCS for d in DTYPES
             for k in range((3 if quick else 40) * heavy.get(fn, 1))]
     res = tables.pmap(worker, jobs, chunk=8)
-    for job, r in zip(jobs, res):
+    for job, r in tables.pairs(ctx, jobs, res):
         if isinstance(r, tables.Crashed):
             ctx.violation(f"{job[0]}/interpreter-crash", f"{job}: worker died", {"job": repr(job)})
             continue
